@@ -19,6 +19,15 @@ pub fn eval_hist(a: &[&str]) -> Option<String> {
             "get" => match arr.get(parse_nats(f[1])) { Some(v) => format!("S{}", int(*v)), None => "N".into() },
             "set" => { let idx = unflat(arr.shape(), f[1].parse().ok()?); if f[1].parse::<usize>().ok()? % 2 == 0 { arr[idx] = f[2].parse::<u64>().ok()? as f64; } else { *arr.get_mut(idx)? = f[2].parse::<u64>().ok()? as f64; } "-".into() }
             "clone" => { arr = arr.clone(); "-".into() }
+            // the object is overwritten in place from another array of (usually) another shape: `Clone::clone_from`, or a plain assignment
+            // (`asg`) — everything derived from the shape must follow
+            "clonefrom" | "asg" => {
+                let sh = parse_nats(f[1]); let k: usize = f[2].parse().ok()?;
+                let n: usize = sh.iter().product();
+                let other: Array<f64> = Array::new((0..n).map(|i| ((i * k + 1) % 1000) as f64).collect::<Vec<_>>(), sh).ok()?;
+                if f[0] == "clonefrom" { arr.clone_from(&other); } else { arr = other; }
+                "-".into()
+            }
             "view" => match arr.get_axis(Axis(f[1].parse().ok()?), f[2].parse().ok()?) {
                 None => "NOVIEW".into(),
                 Some(view) => { let mut it = view.iter(); let mut h = Vec::new();
@@ -78,7 +87,14 @@ fn gen_hist(rng: &mut Rng, n: usize, out: &mut Vec<String>) {
                 6 => ops.push(format!("axis:{ax}:{}", cur[ax] + 2)),
                 7 => ops.push(format!("indices:{}", curlen.min(40) + 2)),
                 8 => if cur.len() > 1 { if rng.chance(1, 2) { ops.push(format!("resum:{ax}")); cur.remove(ax); } else { ops.push(format!("sum:{ax}")); } } else { ops.push("clone".into()); },
-                _ => ops.push("clone".into()),
+                _ => if rng.chance(1, 2) { ops.push("clone".into()); } else {
+                    // overwrite from an array of another shape (same or different number of axes), then carry on with the new shape
+                    let nd = if rng.chance(2, 3) { cur.len() } else { 1 + rng.below(4) as usize };
+                    let mut sh = shapes::random_shape(rng, nd, nd, 1, if nd <= 2 { 6 } else { 3 }, 200);
+                    if sh == cur && sh.len() > 1 { sh.swap(0, 1); }
+                    ops.push(format!("{}:{}:{}", if rng.chance(3, 4) { "clonefrom" } else { "asg" }, nats(&sh), 1 + rng.below(13)));
+                    cur = sh;
+                },
             }
         }
         out.push(format!("hist.arr\t{}\t{}\t{}", nats(&shape), nats(&data), ops.join(";")));
